@@ -1,0 +1,167 @@
+//go:build verif
+// +build verif
+
+package isaacstates
+
+import (
+	"github.com/pkg/errors"
+	"github.com/spikeekips/mitum/base"
+)
+
+// The types below let the conformance harness (/verif, properties C08 and
+// C09) run a real States with state handlers whose enter/exit outcomes the
+// harness decides. The handler interfaces are unexported, so the stubs have to
+// live in this package. No behaviour of States is changed.
+
+// VerifStubEvent describes one call into a stub handler.
+type VerifStubEvent struct {
+	Kind     string    // "enter", "exit" or "allow"
+	State    StateType // state of the called handler
+	From     StateType // enter: the from argument
+	SctxFrom StateType // from() of the switch context
+	Next     StateType // next() of the switch context
+	Prev     StateType // enter/exit: state of States.cs, read under the state lock
+	Allowed  bool      // States.AllowedConsensus() at the time of the call
+	Allow    bool      // allow: argument of whenSetAllowConsensus
+}
+
+// VerifStubReply is the scripted outcome of a call into a stub handler.
+type VerifStubReply struct {
+	// Outcome is "ok" (or empty), "error", "ignore" (ErrIgnoreSwitchingState)
+	// or "redirect" (enter only; another switch context from the entered
+	// state to Redirect).
+	Outcome  string
+	Redirect StateType
+	// Finish (exit only) does what HandoverHandler.exit does after a finished
+	// handover: setAllowConsensus(true).
+	Finish bool
+}
+
+type VerifStubScript func(*States, VerifStubEvent) VerifStubReply
+
+type verifStubHandler struct {
+	sts    *States
+	script VerifStubScript
+	s      StateType
+}
+
+func (h *verifStubHandler) new() (handler, error) { return h, nil }
+
+func (h *verifStubHandler) setStates(sts *States) { h.sts = sts }
+
+func (h *verifStubHandler) state() StateType { return h.s }
+
+func (h *verifStubHandler) prev() StateType {
+	if h.sts == nil || h.sts.cs == nil {
+		return StateEmpty
+	}
+
+	return h.sts.cs.state() // NOTE called under States.stateLock
+}
+
+func (h *verifStubHandler) enter(from StateType, sctx switchContext) (func(), error) {
+	if sctx == nil { // NOTE stopped handler at States.start()
+		return func() {}, nil
+	}
+
+	r := h.script(h.sts, VerifStubEvent{
+		Kind: "enter", State: h.s, From: from, SctxFrom: sctx.from(), Next: sctx.next(),
+		Prev: h.prev(), Allowed: h.sts.AllowedConsensus(),
+	})
+
+	switch r.Outcome {
+	case "", "ok":
+		return func() {}, nil
+	case "redirect":
+		return nil, VerifSwitchContext(h.s, r.Redirect)
+	case "ignore":
+		return nil, ErrIgnoreSwitchingState.Errorf("verif stub")
+	default:
+		return nil, errors.Errorf("verif stub: enter %s", r.Outcome)
+	}
+}
+
+func (h *verifStubHandler) exit(sctx switchContext) (func(), error) {
+	r := h.script(h.sts, VerifStubEvent{
+		Kind: "exit", State: h.s, SctxFrom: sctx.from(), Next: sctx.next(),
+		Prev: h.prev(), Allowed: h.sts.AllowedConsensus(),
+	})
+
+	if r.Finish {
+		_ = h.sts.setAllowConsensus(true)
+	}
+
+	switch r.Outcome {
+	case "", "ok":
+		return func() {}, nil
+	case "ignore":
+		return nil, ErrIgnoreSwitchingState.Errorf("verif stub")
+	default:
+		return nil, errors.Errorf("verif stub: exit %s", r.Outcome)
+	}
+}
+
+func (*verifStubHandler) newVoteproof(base.Voteproof) error { return nil }
+
+func (h *verifStubHandler) allowedConsensus() bool { return h.sts.AllowedConsensus() }
+
+func (h *verifStubHandler) whenSetAllowConsensus(allow bool) {
+	_ = h.script(h.sts, VerifStubEvent{
+		Kind: "allow", State: h.s, Allow: allow, Allowed: h.sts.AllowedConsensus(),
+	})
+}
+
+// VerifSetStubHandlers installs a stub handler for every state.
+func (st *States) VerifSetStubHandlers(script VerifStubScript) *States {
+	for _, s := range []StateType{
+		StateStopped, StateBooting, StateJoining, StateConsensus, StateSyncing, StateHandover, StateBroken,
+	} {
+		st.newHandlers[s] = &verifStubHandler{sts: st, script: script, s: s}
+	}
+
+	return st
+}
+
+// VerifSwitchContext makes the switch context the real handlers use for next.
+func VerifSwitchContext(from, next StateType) error {
+	switch next {
+	case StateBooting:
+		return newBootingSwitchContext(from)
+	case StateJoining:
+		return newJoiningSwitchContext(from, nil)
+	case StateConsensus:
+		return consensusSwitchContext{baseSwitchContext: newBaseSwitchContext(from, StateConsensus)}
+	case StateSyncing:
+		return emptySyncingSwitchContext(from)
+	case StateHandover:
+		return newHandoverSwitchContext(from, nil)
+	case StateBroken:
+		return newBrokenSwitchContext(from, errors.Errorf("verif"))
+	case StateStopped:
+		return newStoppedSwitchContext(from, nil)
+	default:
+		return newBaseSwitchContext(from, next)
+	}
+}
+
+// VerifAskMoveState is AskMoveState with a switch context made from (from, next).
+func (st *States) VerifAskMoveState(from, next StateType) error {
+	return st.AskMoveState(VerifSwitchContext(from, next).(switchContext)) //nolint:forcetypeassert //...
+}
+
+// VerifSetCurrent makes the stub handler of state the current handler of a
+// States which is not started (used to drive the mimic-ballot function).
+func (st *States) VerifSetCurrent(state StateType) {
+	st.stateLock.Lock()
+	defer st.stateLock.Unlock()
+
+	h, _ := st.newHandlers[state].new()
+	st.cs = h
+}
+
+// VerifMimicBallotFunc returns the function NewStates installs in the ballot
+// box with SetNewBallotFunc, so that the harness can install it again wrapped
+// (to learn when a call has returned).
+func (st *States) VerifMimicBallotFunc() func(base.Ballot) {
+	return st.mimicBallotFunc()
+}
